@@ -1,5 +1,168 @@
-"""Further zoo families (options levels, sort order, tree shapes). Filled in step by step."""
+"""Further zoo families: tree shapes (C20), sort order (C16), option levels (C15/C03), threads and
+panics (C08 end-to-end)."""
+
+LEAF_KINDS = ["bench", "args2", "ignored", "threads12", "counter", "quiet", "values", "named_wide", "named_unicode"]
+
+
+def ordered_trees(n):
+    """All ordered forests with exactly n nodes, as nested lists (a node = list of its children)."""
+    if n == 0:
+        return [[]]
+    out = []
+    # first tree of the forest has k nodes (root + forest of k-1), rest has n-k
+    for k in range(1, n + 1):
+        for sub in ordered_trees(k - 1):
+            for rest in ordered_trees(n - k):
+                out.append([sub] + rest)
+    return out
+
+
+def family_shapes(m, tier, add_bench, open_mod, close_mod):
+    max_nodes = 6 if tier == "thorough" else 4
+    names = ["a", "bbbbbbbb", "c3", "c12", "Zed", "q_q"]
+    counter = [0]
+    fam = 0
+    for n in range(1, max_nodes + 1):
+        for forest in ordered_trees(n):
+            fam += 1
+            top = "s%03d" % fam
+            m.families[top] = "shapes"
+            path = open_mod(m, [], 0, top)
+
+            def emit(children, path, indent):
+                for i, child in enumerate(children):
+                    name = names[i % len(names)]
+                    if child:  # internal node: module, every other one a group with a custom name
+                        counter[0] += 1
+                        group = None
+                        if counter[0] % 3 == 0:
+                            group = {"display": "grp %s" % name}
+                        elif counter[0] % 3 == 1:
+                            group = {}
+                        p2 = open_mod(m, path, indent, "m_" + name, group=group)
+                        emit(child, p2, indent + 4)
+                        close_mod(m, indent)
+                    else:
+                        counter[0] += 1
+                        kind = LEAF_KINDS[counter[0] % len(LEAF_KINDS)]
+                        leaf(m, add_bench, path, indent, "l_" + name, kind, counter[0])
+
+            emit(forest, path, 4)
+            close_mod(m, 0)
+
+
+def leaf(m, add_bench, path, indent, name, kind, salt):
+    cost = 1000 + 137 * (salt % 11)
+    if kind == "bench":
+        return add_bench(m, path, indent, name, cost=cost)
+    if kind == "args2":
+        return add_bench(m, path, indent, name, args="strs", cost=cost)
+    if kind == "ignored":
+        return add_bench(m, path, indent, name, options=[("ignore", None)], cost=cost)
+    if kind == "threads12":
+        return add_bench(m, path, indent, name, options=[("threads", "[1, 2]")], cost=cost)
+    if kind == "counter":
+        return add_bench(m, path, indent, name, form="bencher", bencher_style="counter", options=[("bytes_count", "4096u32")], cost=cost)
+    if kind == "quiet":
+        return add_bench(m, path, indent, name, body="quiet", cost=cost)
+    if kind == "values":
+        return add_bench(m, path, indent, name, form="bencher", bencher_style="values", cost=cost)
+    if kind == "named_wide":
+        return add_bench(m, path, indent, name, name="a rather wide display name %d" % salt, cost=cost)
+    if kind == "named_unicode":
+        return add_bench(m, path, indent, name, name="ñandú %d" % salt, cost=cost)
+    raise ValueError(kind)
+
+
+def family_sort(m, tier, add_bench, open_mod, close_mod):
+    """Sibling sets whose documented order differs per attribute (C16 end to end)."""
+    top = "srt"
+    m.families[top] = "sort"
+    path = open_mod(m, [], 0, top)
+    # declaration order deliberately scrambled w.r.t. both name and kind
+    add_bench(m, path, 4, "b10")
+    g = open_mod(m, path, 4, "a_mod")
+    add_bench(m, g, 8, "z")
+    add_bench(m, g, 8, "y2")
+    add_bench(m, g, 8, "y10")
+    close_mod(m, 4)
+    add_bench(m, path, 4, "b2")
+    add_bench(m, path, 4, "args_int", args="arr_i32_big")
+    add_bench(m, path, 4, "args_neg", args="arr_neg")
+    add_bench(m, path, 4, "args_f64", args="f64s")
+    add_bench(m, path, 4, "args_str", args="string_arr")
+    add_bench(m, path, 4, "gen_consts", consts=[10, 9, 100, 1])
+    add_bench(m, path, 4, "gen_types", types=["TC", "TA", "TB"])
+    add_bench(m, path, 4, "gen_tc", types=["TB", "TA"], consts=[20, 3])
+    g2 = open_mod(m, path, 4, "B_group", group={"display": "a0 shown first by name"})
+    add_bench(m, g2, 8, "only")
+    close_mod(m, 4)
+    add_bench(m, path, 4, "A1")
+    close_mod(m, 0)
+
+
+def family_options(m, tier, add_bench, open_mod, close_mod):
+    """Options at the benchmark and at up to three nested group levels (C15, C03 end to end).
+    Every level either sets sample_count (level-specific value) or not; sample_size likewise on
+    a second set; observed through call counts."""
+    top = "opt"
+    m.families[top] = "options"
+    path = open_mod(m, [], 0, top)
+    k = 0
+    # level values: outer 2, mid 3, inner 4, bench 5 for sample_count; sample_size 1 more
+    for mask in range(16):
+        for field in ("sample_count", "sample_size"):
+            k += 1
+            lv = {"outer": 2, "mid": 3, "inner": 4, "bench": 5}
+            other = "sample_size" if field == "sample_count" else "sample_count"
+            def opts(level, bit):
+                o = []
+                if mask & bit:
+                    o.append((field, str(lv[level])))
+                return o
+            p0 = open_mod(m, path, 4, "o%02d" % k, group={"options": opts("outer", 1) + [(other, "2")]})
+            p1 = open_mod(m, p0, 8, "mid", group={"options": opts("mid", 2)})
+            p2 = open_mod(m, p1, 12, "inner", group={"options": opts("inner", 4)})
+            add_bench(m, p2, 16, "b", options=opts("bench", 8), form="bencher")
+            close_mod(m, 12)
+            close_mod(m, 8)
+            close_mod(m, 4)
+    # other fields, set at one level each and inherited through a plain module
+    g = open_mod(m, path, 4, "misc", group={"options": [("sample_count", "2"), ("sample_size", "3"), ("items_count", "7u32"), ("threads", "2")]})
+    add_bench(m, g, 8, "inherits_all", form="bencher")
+    add_bench(m, g, 8, "own_threads", form="bencher", options=[("threads", "[1]")])
+    add_bench(m, g, 8, "own_counter", form="bencher", options=[("bytes_count", "9u32")])
+    add_bench(m, g, 8, "own_items", form="bencher", options=[("items_count", "11u32")])
+    pm = open_mod(m, g, 8, "plain")
+    add_bench(m, pm, 12, "through_module", form="bencher")
+    close_mod(m, 8)
+    close_mod(m, 4)
+    g = open_mod(m, path, 4, "zero", group={"options": [("sample_size", "2")]})
+    add_bench(m, g, 8, "count_zero", form="bencher", options=[("sample_count", "0")])
+    add_bench(m, g, 8, "size_zero", form="bencher", options=[("sample_size", "0")])
+    add_bench(m, g, 8, "max_zero", form="bencher", options=[("max_time", "0")])
+    add_bench(m, g, 8, "threads_dup", form="bencher", options=[("threads", "[2, 1, 2, 1]"), ("sample_count", "2")])
+    add_bench(m, g, 8, "threads_zero_and_n", form="bencher", options=[("threads", "[0, 0]"), ("sample_count", "1"), ("sample_size", "1")])
+    add_bench(m, g, 8, "local_with_threads", form="bencher", bencher_style="bench_local", options=[("threads", "4"), ("sample_count", "3")])
+    close_mod(m, 4)
+    close_mod(m, 0)
+
+
+def family_panic(m, tier, add_bench, open_mod, close_mod):
+    """A benchmarked function that panics on a worker thread (C08 end to end). Only ever run
+    through an explicit filter."""
+    top = "pnc"
+    m.families[top] = "panic"
+    path = open_mod(m, [], 0, top)
+    worker = 'if std::env::var_os("ZOO_PANIC").is_some() && std::thread::current().name().map_or(false, |n| n.starts_with("divan-")) { panic!("zoo: injected panic on a pool thread"); }'
+    caller = 'if std::env::var_os("ZOO_PANIC").is_some() && !std::thread::current().name().map_or(false, |n| n.starts_with("divan-")) { panic!("zoo: injected panic on the calling thread"); }'
+    add_bench(m, path, 4, "panics_on_worker", options=[("threads", "2"), ("sample_count", "2"), ("sample_size", "1")], pre=worker)
+    add_bench(m, path, 4, "panics_on_caller", options=[("threads", "3"), ("sample_count", "3"), ("sample_size", "1")], pre=caller)
+    close_mod(m, 0)
 
 
 def more_families(m, tier, add_bench, open_mod, close_mod):
-    return
+    family_shapes(m, tier, add_bench, open_mod, close_mod)
+    family_sort(m, tier, add_bench, open_mod, close_mod)
+    family_options(m, tier, add_bench, open_mod, close_mod)
+    family_panic(m, tier, add_bench, open_mod, close_mod)
